@@ -5,7 +5,7 @@ from __future__ import annotations
 import sys
 import time
 from collections.abc import Callable, Iterable, Mapping
-from threading import Event
+from threading import Event, Lock
 from typing import Any, NamedTuple
 
 from ..util import memory_use
@@ -34,6 +34,31 @@ class Task(NamedTuple):
     kwargs: Mapping[str, Any]
 
 
+_limit_lock = Lock()
+_limit_users = 0
+_limit_saved = 0
+
+
+def _raise_recursion_limit() -> None:
+    # NOTE the recursion limit belongs to the interpreter, not to the task:
+    #   with a thread pool several tasks run at once, and a task that restored
+    #   the limit it had found would take it away from the ones still running
+    global _limit_users, _limit_saved
+    with _limit_lock:
+        if _limit_users == 0:
+            _limit_saved = sys.getrecursionlimit()
+            sys.setrecursionlimit(max(_limit_saved, 2**16))
+        _limit_users += 1
+
+
+def _restore_recursion_limit() -> None:
+    global _limit_users
+    with _limit_lock:
+        _limit_users -= 1
+        if _limit_users == 0:
+            sys.setrecursionlimit(_limit_saved)
+
+
 def taskproc(task: Task) -> Result:
     if task.stop.is_set():
         return Result(
@@ -45,8 +70,7 @@ def taskproc(task: Task) -> Result:
     result = Result(task.stop, task.payload)
     outcome: Any = None
     elapsed: float = 0.0
-    prev_limit = sys.getrecursionlimit()
-    sys.setrecursionlimit(2**16)
+    _raise_recursion_limit()
     try:
         start_time = time.thread_time()
         try:
@@ -72,7 +96,7 @@ def taskproc(task: Task) -> Result:
         ):
             raise
     finally:
-        sys.setrecursionlimit(prev_limit)
+        _restore_recursion_limit()
         result.runtime = elapsed
         result.outcome = task.pickable(outcome)
     result.linecount = getattr(outcome, 'linecount', 0)
